@@ -395,9 +395,23 @@ def recover_lemma(kind):
     return lemma
 
 
+def tcp_recv_deadline(E):
+    """bounded time inside the one transport read the library loops in itself (ModbusTcpClient._recv: select/recv until `size` bytes or the
+    deadline): the deadline `end` is fixed before the loop and no iteration moves it, and every iteration ends with `if time_ > end: break` on
+    a clock value taken in that iteration - so with an advancing clock the loop leaves at the deadline whatever the socket does (readable for
+    ever after a peer close, trickling bytes, silence).  Frame condition decided on the AST (pyvc/ownership.py); the clock is external."""
+    from pyvc import ownership as O
+    q = 'pymodbus.client.sync.ModbusTcpClient._recv'
+    ok, detail = O.loop_has_fixed_deadline(q)
+    E.prove('deadline:the-receive-loop-leaves-at-a-deadline-it-never-moves', ok, backend='ownership', detail=detail)
+
+
 def get_units():
     us = [Unit('%s/init' % PROP, init_lemma, [PROP], functions=[TMQ + '.__init__']),
           Unit('%s/decoder' % PROP, decoder_lemma, [PROP], contracts=(HelperRaisesAnything(),), functions=['pymodbus.factory.ClientDecoder.decode'])]
+    u = Unit('%s/tcp_recv.deadline' % PROP, tcp_recv_deadline, [PROP], functions=['pymodbus.client.sync.ModbusTcpClient._recv'])
+    u.backend = 'ownership'
+    us.append(u)
     for kind in KINDS:
         fq = F.QUAL[kind]
         us.append(Unit('%s/transact.%s' % (PROP, kind), transact_lemma(kind), [PROP], contracts=CS,
